@@ -1,6 +1,7 @@
 import JSL.Inv.EnvReach
 import JSL.Props.C02
 import JSL.Inv.SetupSep
+import JSL.Inv.SetupStoch
 
 /-!
 # C09 — sequence-dependent setup times are always paid, using the right matrix entry
@@ -110,5 +111,19 @@ theorem c09_consecutive_operations_separated {ec : EnvCfg} {st : RewardStatic} {
     {ta tb : Nat} (hta : toolOf inst a = some ta) (htb : toolOf inst b = some tb)
     {d : Int} (hd : mc.setup.lookup (ta, tb) = some (.det d)) : ea + d ≤ sb :=
   setup_separates hst h hja hjb ha hb hda hdb hm hsa hea hsb heb hab hpos hnone hmc hmcid hta htb hd
+
+/-- the same separation for a **stochastic** setup entry: the gap is at least one of its samples -/
+theorem c09_consecutive_operations_separated_sampled {ec : EnvCfg} {st : RewardStatic} {s0 σ : State} (hst : Start orc inst s0)
+    (h : Exposed orc inst ec st s0 σ)
+    {ja jb : JobState} (hja : ja ∈ σ.jobs) (hjb : jb ∈ σ.jobs) {a b : OpState} (ha : a ∈ ja.ops) (hb : b ∈ jb.ops)
+    (hda : a.st = .done) (hdb : b.st = .done) (hm : a.machine = b.machine)
+    {sa ea sb eb : Int} (hsa : a.start = some sa) (hea : a.stop = some ea) (hsb : b.start = some sb) (heb : b.stop = some eb)
+    (hab : ea ≤ sb) (hpos : sa < ea ∨ sb < eb)
+    (hnone : ∀ jc ∈ σ.jobs, ∀ c ∈ jc.ops, c.st = .done → c.machine = b.machine → c ≠ a → c ≠ b →
+      ∀ sc ec', c.start = some sc → c.stop = some ec' → ¬ (ea ≤ sc ∧ ec' ≤ sb))
+    {mc : MachineCfg} (hmc : mc ∈ inst.machines) (hmcid : mc.id = b.machine)
+    {ta tb : Nat} (hta : toolOf inst a = some ta) (htb : toolOf inst b = some tb)
+    {sid : Nat} (hd : mc.setup.lookup (ta, tb) = some (.stoch sid)) : ∃ k, ea + orc sid k ≤ sb :=
+  setup_separatesS hst h hja hjb ha hb hda hdb hm hsa hea hsb heb hab hpos hnone hmc hmcid hta htb hd
 
 end JSL
